@@ -23,6 +23,7 @@ const (
 	famContSeqs                // one block with continuous (and optionally deferred) checks and 3 sequences of one action
 	famConc4D                  // famConc4 plus block-level deferred checks
 	famPlanCont                // 1x1x1, plan-level continuous checks over the 7-subset family of block-level groups
+	famTiny                    // one block, one sequence, two actions (third engine instance after a second crash)
 	famContBlocks              // two blocks: the first with continuous (and optionally deferred) checks and 1..2 sequences, the second plain
 )
 
@@ -56,6 +57,8 @@ func vhCfg(fam int) shape.Cfg {
 		return shape.Cfg{MinBlocks: 1, MaxBlocks: 1, MinSeqs: 4, MaxSeqs: 4, MinActions: 1, MaxActions: 1, BlockGroups: shape.GroupsDeferred, CheckActions: 1}
 	case famContSeqs:
 		return shape.Cfg{MinBlocks: 1, MaxBlocks: 1, MinSeqs: 3, MaxSeqs: 3, MinActions: 1, MaxActions: 1, BlockGroups: shape.GroupsContDeferred, CheckActions: 1}
+	case famTiny:
+		return shape.Cfg{MinBlocks: 1, MaxBlocks: 1, MinSeqs: 1, MaxSeqs: 1, MinActions: 2, MaxActions: 2}
 	case famPlanCont:
 		return shape.Cfg{MinBlocks: 1, MaxBlocks: 1, MinSeqs: 1, MaxSeqs: 1, MinActions: 1, MaxActions: 1, PlanGroups: shape.GroupsCont, BlockGroups: shape.GroupsFamily, CheckActions: 1}
 	case famContBlocks:
